@@ -118,14 +118,17 @@ static void p2p(vh::Rng & r, int type, vh::Out & out)
   using S = typename PT::Scalar;
   const double tol = sizeof(S) == 4 ? 5e-3 : 1e-8;
   const size_t NP = DIM == 2 ? 3 : 6;
-  int n = (int)r.range(DIM == 2 ? 6 : 12, r.coin(1, 6) ? 200 : 30);
+  int n = (int)r.range(DIM == 2 ? 6 : 12, r.coin(1, 6) ? 500 : 30);
+  // a third of the clouds are large (coordinates up to +-200, not preconditioned unless the overload does it): the normal matrix
+  // then has a condition number of 1e4..1e6, the upper part of the property's envelope
+  const long long big = r.coin(1, 3) ? r.range(8, 22) : 1;
   IV xs; for (size_t k = 0; k < NP; ++k) {xs.push_back(r.range(-3, 3));}
   if (r.coin(1, 3)) {for (size_t k = DIM; k < NP; ++k) {xs[k] = 0;}}        // a pure translation
   std::vector<IV> src, nrm; IV ys;
   // axis-aligned unit normals cycling through +-e_i: they span the space; sources spread so that J^T J is regular
   for (int k = 0; k < n; ++k) {
     IV s, nn(DIM, 0);
-    for (size_t a = 0; a < DIM; ++a) {s.push_back(r.range(-9, 9));}
+    for (size_t a = 0; a < DIM; ++a) {s.push_back(big * r.range(-9, 9));}
     nn[k % DIM] = (k / DIM) % 2 ? -1 : 1;
     src.push_back(s); nrm.push_back(nn);
   }
@@ -154,20 +157,26 @@ static void p2p(vh::Rng & r, int type, vh::Out & out)
     std::vector<double> nd; for (auto v : nn) {nd.push_back((double)v);}
     ns[tpos[k]] = mkd<PT, DIM>(nd, 0.0);
   }
+  // scales that keep the condition number of the normal matrix below 1e6 (the property's envelope)
+  double scale = r.pick(std::vector<double>{1, 0.5, 0.125, 4, 0.1, 0.25, 10, 2, 0.05});
+  double condN = 1;
   {
-    // input filter: the property's envelope is a normal matrix with condition number below 1e6 (we keep 1e4)
+    // the rows of the problem actually solved: the preconditioned overloads work on sources scaled by the preconditioning scale
+    const double se = how >= 2 ? scale : 1.0;
+    // input filter: the property's envelope is a normal matrix with condition number below 1e6
     Eigen::MatrixXd Jd(n, (int)NP);
     for (int k = 0; k < n; ++k) {
       const IV & s = src[k]; const IV & nn = nrm[k];
       IV row = DIM == 2 ? IV{nn[0], nn[1], s[0] * nn[1] - s[1] * nn[0]} :
         IV{nn[0], nn[1], nn[2], s[1] * nn[2] - s[2] * nn[1], s[2] * nn[0] - s[0] * nn[2], s[0] * nn[1] - s[1] * nn[0]};
-      for (size_t j = 0; j < NP; ++j) {Jd(k, (int)j) = (double)row[j];}
+      for (size_t j = 0; j < NP; ++j) {Jd(k, (int)j) = (double)row[j] * (j >= DIM ? se : 1.0);}
     }
     Eigen::JacobiSVD<Eigen::MatrixXd> sv(Jd.transpose() * Jd);
-    if (sv.singularValues()(NP - 1) <= 0 || sv.singularValues()(0) / sv.singularValues()(NP - 1) > 1e4) {return;}
+    if (sv.singularValues()(NP - 1) <= 0) {return;}
+    condN = sv.singularValues()(0) / sv.singularValues()(NP - 1);
+    // double: the whole envelope; float: up to where the single-precision normal equations still determine the answer to 25 %
+    if (condN > (sizeof(S) == 4 ? 1e5 : 9e5)) {return;}
   }
-  // scales that keep the condition number of the normal matrix below 1e6 (the property's envelope)
-  double scale = r.pick(std::vector<double>{1, 0.5, 0.125, 4, 0.1, 0.25, 10, 2, 0.05});
   // histories: two long-lived estimators per point type (plain / preconditioned), reused for problems of varying sizes
   static FindRigidTransformationByLeastSquares<PT> estPlain, estPre;
   static PreconditionedPointSet<PT> pa, pb;
@@ -179,12 +188,22 @@ static void p2p(vh::Rng & r, int type, vh::Out & out)
   else {
     pa.compute(ps, (S)scale); pb.compute(pt, (S)scale);
     estPre.setPreconditioner(pa, pb);
-    H = how == 2 ? estPre.find(pa, pb, ns) : estPre.find(pa, pb, ns, cs);
+    // the configured estimator itself, or a copy of it (copy construction, a vector element, copy assignment): a copy is configured
+    // as its source is
+    const int via = (int)r.range(0, 5);
+    if (via <= 2) {H = how == 2 ? estPre.find(pa, pb, ns) : estPre.find(pa, pb, ns, cs);}
+    else if (via == 3) {FindRigidTransformationByLeastSquares<PT> c(estPre); H = how == 2 ? c.find(pa, pb, ns) : c.find(pa, pb, ns, cs);}
+    else if (via == 4) {
+      std::vector<FindRigidTransformationByLeastSquares<PT>> v; v.push_back(estPre); v.push_back(estPlain); v.push_back(estPre);
+      H = how == 2 ? v[0].find(pa, pb, ns) : v[2].find(pa, pb, ns, cs);
+    } else {FindRigidTransformationByLeastSquares<PT> c; c = estPre; H = how == 2 ? c.find(pa, pb, ns) : c.find(pa, pb, ns, cs);}
   }
   bool ok = true;
   IM Hm(DIM + 1, IV(DIM + 1));
   for (size_t i = 0; i <= DIM; ++i) {for (size_t j = 0; j <= DIM; ++j) {
-      double x = (double)H(i, j), rx = std::nearbyint(x); if (!(std::fabs(x - rx) <= tol * 10)) {ok = false;} Hm[i][j] = std::fabs(rx) < 2e9 ? (long long)rx : 0;}}
+      // the solver works on the normal matrix: its rounding error grows with that matrix's condition number
+      const double tolq = std::max(tol * 10, 20.0 * (double)std::numeric_limits<S>::epsilon() * condN * 4.0);
+      double x = (double)H(i, j), rx = std::nearbyint(x); if (!(std::fabs(x - rx) <= tolq)) {ok = false;} Hm[i][j] = std::fabs(rx) < 2e9 ? (long long)rx : 0;}}
   IV x = DIM == 2 ? IV{Hm[0][2], Hm[1][2], Hm[1][0]} : IV{Hm[0][3], Hm[1][3], Hm[2][3], Hm[2][1], Hm[0][2], Hm[1][0]};
   out.put(vh::Ev("p2p").i("dim", DIM).i("type", type).i("how", how).mat("src", src).mat("nrm", nrm).vec("ys", ys).vec("xstar", xs).vec("x", x)
     .mat("Hm", Hm).b("ex", ok));
